@@ -10,9 +10,13 @@ rows=[]
 for f in sorted(glob.glob('/verif/seeded/*/meta.json')):
     m=json.load(open(f)); p=m['property']
     ck=m.get('checks',{}).get(p)
-    rows.append((m['name'], p, 'DETECTED' if ck and ck['detected'] else ('not detected' if ck else 'check not built yet'), ', '.join(ck['fingerprints']) if ck else ''))
+    first = m.get('reported_before_the_check_was_strengthened_for_wave_2')
+    rows.append((m['name'], p, m.get('wave', 1), 'DETECTED' if ck and ck['detected'] else ('not detected' if ck else 'check not built yet'),
+                 {None: 'see DESIGN 8.5', True: 'yes', False: 'no - check strengthened'}[first], ', '.join(ck['fingerprints']) if ck else ''))
 with open('/verif/seeded/RESULTS.md','w') as f:
-    f.write('# Seeded changes vs. the check of their own property (quick tier)\n\n| seeded change | property | result | fingerprints |\n|---|---|---|---|\n')
-    for r in rows: f.write('| %s | %s | %s | %s |\n' % r)
+    f.write('# Seeded changes vs. the check of their own property (quick tier, current checks)\n\n'
+            '| seeded change | property | wave | result now | reported as first delivered? | fingerprints |\n|---|---|---|---|---|---|\n')
+    for r in rows: f.write('| %s | %s | %s | %s | %s | %s |\n' % r)
+    f.write('\n%d seeded changes, %d detected by the current quick tier.\n' % (len(rows), sum(r[3] == 'DETECTED' for r in rows)))
 print(open('/verif/seeded/RESULTS.md').read())
 PY
